@@ -1153,6 +1153,10 @@ class Container:
                 else:
                     denominator += Unit.convert_from(substance, amount, config.moles_storage_unit, units[1])
 
+        if denominator == 0:
+            # (per litre of a dry solid without volume, per unit of activity without an enzyme, per litre of a residue
+            # whose volume rounds to nothing)
+            raise ValueError(f"The container holds nothing a concentration in {units[0]}/{units[1]} is stated per.")
         return Unit.round_concentration(numerator / denominator / mult)
 
     def get_volume(self, unit: str = None) -> float:
